@@ -24,6 +24,12 @@ theorem decode_encode (c : Consts) (hc : c.ok = true) (cd : Codec σ) (hl : Laws
 theorem size_eq (c : Consts) (cd : Codec σ) (s : Image σ) : (encode c cd s).length = serializedSize cd s :=
   length_encodeWith c cd _ _ s
 
+/-- re-serialization of what was read gives the same bytes. -/
+theorem encode_decode (c : Consts) (hc : c.ok = true) (cd : Codec σ) (hl : Laws cd) (s : Image σ) (hwf : WF cd s) (exp : Nat)
+    (hseed : s.isEmpty = true ∨ s.seedHash = exp) (tail : Bytes) :
+    (decode c cd exp (encode c cd s ++ tail)).map (fun p => encode c cd p.1) = some (encode c cd s) := by
+  rw [decode_encode c hc cd hl s hwf exp hseed tail]; rfl
+
 /-- the serdes of the tied sketch types are lawful. -/
 theorem serde_u64_lawful : Laws u64Codec := u64Codec_laws
 theorem serde_string_lawful (lenBytes : Nat) : Laws (strCodec lenBytes) := strCodec_laws lenBytes
